@@ -568,6 +568,10 @@ VARIANTS["C14"] = [
     V("masks-swapped", "fire", WF, [("    indx_prepeak = np.where(arr_mask == 0)\n    indx_postpeak = np.where(arr_mask == 1)\n", "    indx_prepeak = np.where(arr_mask == 1)\n    indx_postpeak = np.where(arr_mask == 0)\n")], ("D4",), ""),
     V("val-peak-axes-swapped", "fire", WF, [("    val_peak = arr_in[np.arange(0, arr_in.shape[0], 1), indx_peak, indx_trace]\n", "    val_peak = arr_in[np.arange(0, arr_in.shape[0], 1), indx_trace, indx_peak]\n")], ("D5",), ""),
     V("swap-threshold", "fire", WF, [("(df[\"peak_to_trough_ratio\"] <= 1.5)", "(df[\"peak_to_trough_ratio\"] <= 2.5)")], ("D5",), ""),
+    V("post-array-excludes-peak", "fire", WF, [("    indx_postpeak = np.where(arr_mask == 1)\n", "    indx_postpeak = np.where(arr_mask >= 1)\n"), (
+        "    arr_mask = np.cumsum(arr_mask, axis=1)\n", "    arr_mask = np.cumsum(arr_mask, axis=1)\n    arr_mask[np.arange(0, arr_mask.shape[0], 1), indx_peak] = 2\n"), (
+        "    indx_prepeak = np.where(arr_mask == 0)\n", "    indx_prepeak = np.where(arr_mask != 1)\n")], ("D4",), "peak sample kept in neither array"),
+    V("twin-argmax-nan-to-num", "twin", WF, [("    indx_trough = np.nanargmax(arr_post, axis=1)\n", "    indx_trough = np.argmax(np.nan_to_num(arr_post, nan=-np.inf), axis=1)\n")], (), "same maximum when every row has a finite value (the post array always holds the peak)"),
     V("twin-minimum-clamp", "twin", WF, [(
         "    idx_over = np.where(idx_all >= arr_peak.shape[1])[0]\n    if len(idx_over) > 0:\n        # Todo should this raise a warning ?\n        idx_all[idx_over] = arr_peak.shape[1] - 1  # Take the last value of the waveform\n",
         "    idx_all = np.minimum(idx_all, arr_peak.shape[1] - 1)\n")], (), ""),
